@@ -108,6 +108,27 @@ def c05a(ctx):
                      places, key.split("await:")[1], b.name, af.rtc_why.get(b.key, "?")),
                  detail="future may suspend because: %s" % "; ".join(why[:3]))
 
+    # ---- rule 1b: the exclusive session guard is never owned across a suspension point of a droppable coroutine
+    # (dropping the future there would release the phase lock while the session is only half propagated)
+    o1b = ctx.ob("C05.a", "rule1b/summary", "K6", "the exclusive input-session guard is not owned (by value) at a may-suspend Yield of a non-RTC coroutine")
+    n1b = 0
+    for b in af.coros:
+        if b.crate != "qbice" or af.rtc[b.key]:
+            continue
+        for aw in df.awaits(b):
+            sus, why = af.await_may_suspend(b, aw)
+            if not sus:
+                continue
+            for y in aw.yields:
+                n1b += 1
+                held = b.held(y.bb, "ActiveInputSessionGuard")
+                if held:
+                    oo = ctx.ob("C05.a", "rule1b/%s/await:%s" % (b.name, awaited_name(aw)), "K6", o1b.desc)
+                    oo.sites = 1
+                    ctx.fail(oo, y, "the exclusive session guard (_%d) is owned by %s across `.await` of %s, and that future can be dropped (%s): cancelling it releases the phase lock "
+                             "while dirty propagation is still running — readers start on a half-propagated session and verify nodes with stale values" % (
+                                 held[0][0][0], b.name, awaited_name(aw), af.rtc_why.get(b.key, "?")))
+    o1b.sites = n1b
     # ---- rule 2: no owned batch reaches a Drop terminator / mem::drop on a normal path (engine crate)
     o2 = ctx.ob("C05.a", "rule2/summary", "K6", "an engine-side write batch is consumed only by submit/return/move, never dropped")
     n = 0
